@@ -101,6 +101,15 @@ def run(prop, tier, seed):
                      rng.choice(IOLABS if prop in ("C09", "C10", "C11") else LABS),
                      drivers.known_of(calls), drivers.grid_of(calls), tier))
     chk.run_jobs(job_derive, jobs, "der", chunk=200)
+    if prop == "C09":
+        # 'u v t e' rows read as the span t..e-1 (clause C09_c, spec/ParsersSpec.tla)
+        from . import check_c18
+        chk.extra["parser_cases"] = check_c18.parse_jobs(
+            chk, ("snapshots",), tier, rng, nquick=500, only=lambda c: any(len(l["toks"]) >= 4 for l in c))
+    if prop == "C10":
+        # every well-formed event log of the bounded domain fed to the reader (clause C10_d)
+        from . import check_c18
+        chk.extra["parser_cases"] = check_c18.parse_jobs(chk, ("interactions",), tier, rng, nquick=500)
     chk.extra["bounded_states_replayed"] = nst
     chk.assumptions = [
         "TLC, the CommunityModules and the JSON bridge are correct",
